@@ -73,12 +73,12 @@ structure Inv (text : Bool) (list : List Sym) (body : List Nat) (p0 : Nat) (c0 :
   cw : s.cw = c0 ++ latchOf text :: packTriples ((Wb text body p0 s.pos).take (3 * m))
   last : p0 < s.pos → lastCh = body.getD (s.pos - 1) 0
 
-/-- no latch to a non-ASCII mode is planned for the last four characters -/
-def PlanOK (plan : List (Nat × EMode)) : Prop := ∀ e ∈ plan, e.2 ≠ .ascii → e.1 = 0 ∨ e.1 > 4
+/-- no latch to a non-ASCII mode is planned for the last four characters, and EDIFACT is not used -/
+def PlanOK (plan : List (Nat × EMode)) : Prop := ∀ e ∈ plan, (e.2 ≠ .ascii → e.1 = 0 ∨ e.1 > 4) ∧ e.2 ≠ .edifact
 
 /-- a pending latch is consistent with the mode -/
 def Pending (s : St) : Prop :=
-  (s.mode = .ascii ∧ s.newMode = none) ∨ (∃ l, s.mode.latch = some l ∧ s.newMode = some l)
+  (s.mode = .ascii ∧ s.newMode = none) ∨ (∃ l, s.mode.latch = some l ∧ s.newMode = some l ∧ s.mode ≠ .edifact)
 
 /-- what `c40::encode` leaves behind (see `C40RT.C40End`), relative to the start of the run -/
 structure End (text : Bool) (list : List Sym) (body : List Nat) (p0 : Nat) (c0 : List Nat) (s' : St) : Prop where
@@ -489,7 +489,7 @@ theorem switched_ok (s s3 : St) (hnm : s.newMode = none) (hok : PlanOK s.plan) (
     | some l =>
       right
       rw [hl] at t4
-      exact ⟨l, rfl, t4⟩
+      exact ⟨l, rfl, t4, (hok _ hat).2⟩
   · intro h4
     cases hl : s3.mode.latch with
     | none => rw [hl] at t4; exact t4
@@ -497,7 +497,7 @@ theorem switched_ok (s s3 : St) (hnm : s.newMode = none) (hok : PlanOK s.plan) (
       exfalso
       have hne : s3.mode ≠ .ascii := by
         intro hm; rw [hm] at hl; simp [EMode.latch] at hl
-      rcases hok _ hat hne with h0 | h0
+      rcases (hok _ hat).1 hne with h0 | h0
       · simp only [] at h0; omega
       · simp only [] at h0; omega
 
